@@ -1,80 +1,18 @@
 (* C18 — the two halves put together: after any interleaving of API calls with
-   keys free of '#' and whitespace, once every persist() has run, a restart on
-   the `local` file blocks exactly the names the memory blocks. *)
+   any keys (those with '#' or white space are refused by setLocked), once every
+   persist() has run, a restart on the `local` file blocks exactly the names the
+   memory blocks. *)
 From Coq Require Import Permutation.
 From Sdns Require Import Common.Base Gen.C18 C18.Model C18.Spec C18.Proofs_match C18.Proofs_disk C18.Proofs_reload.
 Open Scope N_scope.
 
-Definition clean_key (k : str) : Prop := Forall clean_char k /\ sane k.
-Definition mem_clean (b : bl) : Prop := Forall clean_entry (entries_of (bm b) (bwild b)).
+(* interleavings whose API calls carry keys that do not end in a lone backslash
+   (dns.Fqdn is not idempotent on those: "x\" -> "x\." -> "x\..") *)
 
-Lemma lower_clean c : clean_char c -> clean_char (lower c).
-Proof.
-  unfold clean_char, lower, is_space. intros [Hs Hh].
-  destruct ((65 <=? c) && (c <=? 90)) eqn:E; [|easy]. apply andb_true_iff in E as [E1 E2]. apply N.leb_le in E1, E2.
-  split; [|lia]. repeat (apply orb_false_iff; split); apply N.eqb_neq; lia.
-Qed.
-
-Lemma canonical_clean k : Forall clean_char k -> clean_line (canonical k).
-Proof.
-  intros H. unfold canonical, fqdn. destruct (is_fqdn k) eqn:E; split.
-  - destruct k; [discriminate|discriminate].
-  - apply Forall_forall. intros c Hc. apply in_map_iff in Hc as (d & <- & Hd). apply lower_clean.
-    rewrite Forall_forall in H. now apply H.
-  - destruct k; discriminate.
-  - apply Forall_forall. intros c Hc. apply in_map_iff in Hc as (d & <- & Hd). apply lower_clean.
-    apply in_app_iff in Hd as [Hd|[<-|[]]]; [rewrite Forall_forall in H; now apply H|]. split; [reflexivity|discriminate].
-Qed.
-
-Lemma clean_entries_iff m wl :
-  Forall clean_entry (entries_of m wl) <->
-  (forall e, In e m -> clean_line e) /\ (forall s, In s wl -> clean_line (wline s)).
-Proof.
-  unfold entries_of. rewrite Forall_app, !Forall_forall. split.
-  - intros [A B]. split; intros x Hx; [apply (A (EPlain x))|apply (B (EWild x))]; now apply in_map.
-  - intros [A B]. split; intros x Hx; apply in_map_iff in Hx as (y & <- & Hy); unfold clean_entry; cbn [line_of];
-      [now apply A|now apply B].
-Qed.
-
-Lemma set_locked_keeps_clean k b : clean_key k -> mem_clean b -> mem_clean (snd (set_locked k b)).
-Proof.
-  intros [Hk _] Hc. unfold set_locked. destruct (match_hierarchy (canonical k) (bw b)); [exact Hc|].
-  unfold mem_clean in *. change set_wildp with [42; 46]. change (N.to_nat set_wild_skip) with 2%nat.
-  apply clean_entries_iff in Hc as [A B].
-  destruct (has_prefix [42; 46] (canonical k)) eqn:Ep; cbn [snd bm bwild]; apply clean_entries_iff; split; try assumption.
-  - intros s Hs. apply In_add in Hs as [Hs| ->]; [now apply B|]. rewrite (skipn2_wline _ Ep). now apply canonical_clean.
-  - intros e He. apply In_add in He as [He| ->]; [now apply A|]. now apply canonical_clean.
-Qed.
-
-Lemma remove_locked_keeps_clean k b : mem_clean b -> mem_clean (snd (remove_locked k b)).
-Proof.
-  intros Hc. unfold remove_locked, mem_clean in *. apply clean_entries_iff in Hc as [A B].
-  destruct (mem (canonical k) (bm b)); cbn [snd bm bwild].
-  - apply clean_entries_iff. split; [|exact B]. intros e He. apply A. eapply In_del; eauto.
-  - destruct (has_prefix remove_wildp (canonical k)); [|now apply clean_entries_iff].
-    destruct (mem _ (bwild b)); cbn [snd bm bwild]; apply clean_entries_iff; split; try assumption.
-    intros s Hs. apply B. eapply In_del; eauto.
-Qed.
-
-Lemma apply_op_keeps_clean o b : Forall clean_key (op_keys o) -> mem_clean b -> mem_clean (snd (apply_op o b)).
-Proof.
-  intros Hs Hg. destruct o as [k|k|ks|ks]; cbn in *.
-  - inversion Hs; subst. pose proof (set_locked_keeps_clean k b H1 Hg). destruct (set_locked k b). exact H.
-  - pose proof (remove_locked_keeps_clean k b Hg). destruct (remove_locked k b). exact H.
-  - destruct (is_nil ks); [exact Hg|].
-    pose proof (batch_keeps mem_clean clean_key set_locked set_locked_keeps_clean ks b 0 Hs Hg) as H.
-    destruct (batch set_locked ks b 0) as [n b']. cbn in H. now destruct (n =? 0).
-  - destruct (is_nil ks); [exact Hg|].
-    pose proof (batch_keeps mem_clean (fun _ => True) remove_locked (fun k b _ => remove_locked_keeps_clean k b) ks b 0) as H.
-    destruct (batch remove_locked ks b 0) as [n b']. cbn in H.
-    assert (mem_clean b') by (apply H; [apply Forall_forall; easy|exact Hg]). now destruct (n =? 0).
-Qed.
-
-(* interleavings whose API calls carry clean keys *)
 Inductive csteps : sys -> sys -> Prop :=
 | csteps_refl s : csteps s s
 | csteps_mutate s t o ex wi :
-    csteps s t -> Forall clean_key (op_keys o) ->
+    csteps s t -> Forall sane (op_keys o) ->
     snap_matches (mk_snap 0 ex wi) (snd (apply_op o (s_mem t))) ->
     csteps s (snd (sys_mutate o ex wi t))
 | csteps_persist s t i :
@@ -93,14 +31,13 @@ Proof.
 Qed.
 
 Lemma csteps_mem_inv s t :
-  csteps s t -> mem_good (s_mem s) -> mem_clean (s_mem s) ->
-  mem_good (s_mem t) /\ mem_clean (s_mem t) /\ bw (s_mem t) = bw (s_mem s).
+  csteps s t -> mem_good (s_mem s) ->
+  mem_good (s_mem t) /\ bw (s_mem t) = bw (s_mem s).
 Proof.
-  induction 1 as [s|s t o ex wi _ IH Hk _|s t i _ IH _]; intros Hg Hc.
+  induction 1 as [s|s t o ex wi _ IH Hk _|s t i _ IH _]; intros Hg.
   - easy.
-  - destruct (IH Hg Hc) as (A & B & C). rewrite sys_mutate_mem. repeat split.
-    + apply apply_op_keeps_good; [|exact A]. eapply Forall_impl; [|exact Hk]. now intros k [_ Hs].
-    + now apply apply_op_keeps_clean.
+  - destruct (IH Hg) as (A & C). rewrite sys_mutate_mem. split.
+    + now apply apply_op_keeps_good.
     + now rewrite apply_op_keeps_w.
   - rewrite sys_persist_mem. now apply IH.
 Qed.
@@ -120,24 +57,20 @@ Proof.
 Qed.
 
 Lemma converged_reload_equiv_lemma b0 l0 s :
-  csteps (init b0 l0) s -> mem_good b0 -> mem_clean b0 ->
+  csteps (init b0 l0) s -> mem_good b0 ->
   s_pending s = [] -> 0 < s_version s ->
   exists file, s_local s = Some file /\
     forall q, bl_exists (parse_bytes file (mk_bl [] [] (bw b0))) q = bl_exists (s_mem s) q.
 Proof.
-  intros St Hg Hc Hp Hv.
-  destruct (csteps_mem_inv _ _ St Hg Hc) as (A & B & C). cbn [init s_mem] in C.
+  intros St Hg Hp Hv.
+  destruct (csteps_mem_inv _ _ St Hg) as (A & C). cbn [init s_mem] in C.
   destruct (disk_converges_lemma b0 l0 s (csteps_steps _ _ St) Hp) as [[E _]|(_ & ex & wi & P1 & P2 & Hl)]; [lia|].
   eexists. split; [exact Hl|]. intros q.
   assert (Hg' : Forall (good_entry (bw b0)) (entries_of ex wi)).
   { rewrite <- C. unfold mem_good in A. apply good_entries_iff in A as [A1 A2]. apply good_entries_iff. split; intros x Hx.
     - apply A1. eapply Permutation_in; eauto.
     - apply A2. eapply Permutation_in; eauto. }
-  assert (Hc' : Forall clean_entry (entries_of ex wi)).
-  { unfold mem_clean in B. apply clean_entries_iff in B as [B1 B2]. apply clean_entries_iff. split; intros x Hx.
-    - apply B1. eapply Permutation_in; eauto.
-    - apply B2. eapply Permutation_in; eauto. }
-  rewrite (reload_equiv_lemma (bw b0) (s_version s) ex wi Hg' Hc' q).
+  rewrite (reload_equiv_lemma (bw b0) (s_version s) ex wi Hg' q).
   rewrite (bl_exists_perm ex wi (bm (s_mem s)) (bwild (s_mem s)) (bw b0) q P1 P2).
   rewrite <- C. now destruct (s_mem s).
 Qed.
@@ -147,15 +80,15 @@ Qed.
 Example converged_example :
   let w := [[111; 107; 46; 116; 101; 115; 116; 46]] in
   let b0 := mk_bl [] [] w in
-  mem_good b0 /\ mem_clean b0 /\
+  mem_good b0 /\
   exists s, csteps (init b0 None) s /\ s_pending s = [] /\ s_version s = 2 /\
             bm (s_mem s) = [[97; 46; 116; 101; 115; 116; 46]] /\ bwild (s_mem s) = [[98; 46; 116; 101; 115; 116; 46]].
 Proof.
-  cbn zeta. split; [constructor|]. split; [constructor|].
+  cbn zeta. split; [constructor|].
   set (k1 := [65; 46; 116; 101; 115; 116]). set (k2 := [42; 46; 98; 46; 116; 101; 115; 116; 46]).
   set (b0 := mk_bl [] [] [[111; 107; 46; 116; 101; 115; 116; 46]]).
-  assert (Ck : forall k, k = k1 \/ k = k2 -> clean_key k).
-  { intros k [->| ->]; (split; [repeat constructor; discriminate|cbn; discriminate]). }
+  assert (Ck : forall k, k = k1 \/ k = k2 -> sane k).
+  { intros k [->| ->]; cbn; discriminate. }
   pose (s1 := snd (sys_mutate (OpSet k1) [[97; 46; 116; 101; 115; 116; 46]] [] (init b0 None))).
   pose (s2 := snd (sys_mutate (OpSet k2) [[97; 46; 116; 101; 115; 116; 46]] [[98; 46; 116; 101; 115; 116; 46]] s1)).
   exists (sys_persist 0 (sys_persist 1 s2)).
